@@ -18,6 +18,7 @@ import (
 	"verifharness/c13"
 	"verifharness/c15"
 	"verifharness/c16"
+	"verifharness/c17"
 	"verifharness/c18"
 	"verifharness/c19"
 	"verifharness/c20"
@@ -42,6 +43,7 @@ var gens = map[string][]genFunc{
 	"C20": {c20.Gen},
 	"C15": {c15.Gen},
 	"C06": {c06.Gen},
+	"C17": {c17.Gen},
 	"C19": {c19.Gen},
 	"C10": {c10.Gen},
 	"C18": {c18.Gen},
@@ -55,6 +57,7 @@ var gens = map[string][]genFunc{
 var customImpl = map[string]func(){
 	"C15": c15.Impl,
 	"C06": c06.Impl,
+	"C17": c17.Impl,
 	"C19": c19.Impl,
 	"C10": c10.Impl,
 	"C18": c18.Impl,
@@ -114,7 +117,9 @@ func main() {
 }
 
 // extra sub-commands registered by individual properties (e.g. C13 scenario drivers)
-var extras = map[string]func(args []string){}
+var extras = map[string]func(args []string){
+	"C17 round2": func([]string) { c17.Round2(hx.Seed()) },
+}
 
 func extra(prop, cmd string, args []string) bool {
 	if f := extras[prop+" "+cmd]; f != nil {
